@@ -7,7 +7,7 @@ import tempfile
 PROPERTY = 'C11'
 THEOREMS = ['T4Scan.scanLines_append', 'T4Scan.step_history', 'T4Scan.prefix_history', 'T4Scan.cut_line_at_most_one',
             'T4Scan.collres_of_history', 'T4Scan.repaired_never_crashes', 'T4Scan.c11_pinned_refuted']
-BUDGET = {'quick': 600, 'thorough': 60000}
+BUDGET = {'quick': 450, 'thorough': 60000}
 TIME_LIMIT = {'quick': 58, 'thorough': 1500}
 RULE = ('prefixes of the shipped Tripoli-4 listings (tests/eponine/tripoli4/data and doc/src/examples, up to 165 kB) and of '
         'synthetic variants (editions duplicated, key lines moved): cut at a line boundary (30%), at every kind of byte inside '
